@@ -349,9 +349,14 @@ def _check_network_send(ctx, prog, co):
         probs.append("expected one awaited throughput sleep, found %d" % len(thr_sleeps))
     else:
         ts, o = thr_sleeps[0]
-        if not (dep.has_call(o, "message::{impl#0}::len") and dep.has_call(o, "network::{impl#5}::next") and 1000 in dep.consts_of(o)
-                and {"MulWithOverflow", "Div"} <= {a[1] for a in o if a[0] == "op"} | ({"MulWithOverflow"} if ("op", "Mul") in o else set())):
-            probs.append("the throughput sleep is not message.len()*1000/throughput milliseconds")
+        why = _throughput_formula(prog, co)
+        if why is None:
+            # formula not available: fall back to the dependence test
+            if not (dep.has_call(o, "message::{impl#0}::len") and dep.has_call(o, "network::{impl#5}::next") and 1000 in dep.consts_of(o)
+                    and {"MulWithOverflow", "Div"} <= {a[1] for a in o if a[0] == "op"} | ({"MulWithOverflow"} if ("op", "Mul") in o else set())):
+                probs.append("the throughput sleep is not message.len()*1000/throughput milliseconds")
+        elif why:
+            probs.append(why)
         if not dep.has_call(o, "from_millis"):
             probs.append("the throughput delay is not taken in milliseconds")
         through = {ts["ready_bb"]}
@@ -395,3 +400,67 @@ def _check_network_send(ctx, prog, co):
 def _is_delivery_local(co, op):
     pl = F.op_place(op)
     return pl is not None and co.local_name(pl[0]) == "delivery"
+
+
+
+def _throughput_formula(prog, co):
+    """The duration handed to the throughput sleep, as a formula (helpers of network.rs inlined), evaluated for a few
+    (length, rate) pairs: it must be length * 1000 / rate milliseconds. Returns None when no formula is available,
+    "" when it agrees, or the discrepancy."""
+    from .. import symx as S
+    fm = [(bb, t) for bb, t in K.calls(co) if (F.callee_key(t) or "").endswith("time::{impl#1}::from_millis") or (F.callee(t) or {}).get("pretty", "").endswith("Duration::from_millis")]
+    fm = [(bb, t) for bb, t in fm if dep.has_call(dep.arg_origins(co, bb, 0, prog=prog), "message::{impl#0}::len")]
+    if len(fm) != 1:
+        return None
+    inl = [k for k, b in prog.bodies.items() if k.startswith("elvis_core::network::") and b.kind in ("fn", "method") and not b.derived and "::tests" not in k
+           and b.name not in ("send", "next", "register_tap", "next_mac")]
+    try:
+        ex = S.Extractor(prog, inl, effects=True, max_nodes=40000)
+        ex.stop = {fm[0][0]}
+        ex.loops_ok = True
+        ex._params = S.params_of(co)
+        t = ex._block(co, 0, {i + 1: a for i, a in enumerate(S.params_of(co))}, (), 0)
+    except S.Unsupported:
+        return None
+    # find the stop leaf and read the argument of from_millis there
+    arg = F.call_args(fm[0][1])[0]
+    pl = F.op_place(arg)
+    found = []
+
+    def walk(x):
+        if x[0] == "ite":
+            walk(x[2]); walk(x[3])
+        elif x[0] == "switch":
+            for _v, y in x[2]:
+                walk(y)
+            walk(x[3])
+        elif x[0] == "state" and x[1][0] == "stop":
+            found.append(x)
+    walk(t)
+    if not found or pl is None or pl[1]:
+        return None
+    name = co.local_name(pl[0])
+    vals = [dict(x[1][2]).get(name) for x in found] if name else []
+    vals = [v for v in vals if v is not None]
+    if not vals:
+        # the argument is a temporary: follow its single definition to a named local
+        r = dep.single_def_rvalue(co, pl[0])
+        if r is not None and r[1][0] == "use" and F.op_place(r[1][1]) is not None and not F.op_place(r[1][1])[1]:
+            name = co.local_name(F.op_place(r[1][1])[0])
+            vals = [dict(x[1][2]).get(name) for x in found] if name else []
+            vals = [v for v in vals if v is not None]
+    if not vals:
+        return None
+    ms = vals[0]
+    lens = S.atoms(ms, lambda x: x[0] == "call" and x[1].endswith("message::{impl#0}::len"))
+    rates = [x for x in S.atoms(ms, lambda x: (x[0] == "field" and x[2] == "0") or (x[0] == "call" and x[1].rsplit("::", 1)[-1] == "next")) if not any(x == l for l in lens)]
+    if len(lens) != 1 or len(rates) != 1:
+        return None
+    for L, R in ((0, 1), (1, 2000), (34, 34), (1500, 1000), (65535, 7), (2000, 2000), (999, 1000000)):
+        try:
+            got = S.concrete(ms, {lens[0]: L, rates[0]: R}, 64)
+        except (KeyError, S.Panics):
+            return None
+        if got != L * 1000 // R:
+            return "the throughput sleep lasts %s ms for a %d-octet frame at %d octets/s, expected len*1000/throughput = %d ms" % (got, L, R, L * 1000 // R)
+    return ""
